@@ -99,6 +99,164 @@ fn boundary_patterns(c: char) -> Vec<String> {
 /// prefix / wildcard / regex on a default-, whitespace-, unicode-analyzed text field and a keyword
 /// field; fuzzy expansion with prefix_length 0, 1, 2; query_string forms; completion suggest with
 /// and without fuzzy.
+/// Structural aggregation family: every aggregation type of the request schema with a minimal
+/// valid parameterisation and a set of invalid ones, placed at every structural position.
+/// Returns (name of the variant, aggregation JSON).
+fn agg_variants() -> Vec<(String, Value)> {
+  let mut v: Vec<(String, Value)> = Vec::new();
+  let mut add = |name: &str, a: Value| v.push((name.to_string(), a));
+  let huge = 18446744073709551615u64;
+  // keyword bucket aggregations
+  for ty in ["terms", "significant_terms", "rare_terms"] {
+    add(&format!("{ty} valid"), json!({"type": ty, "field": "kw"}));
+    for f in ["nope", "n", "body", "c.a", ""] {
+      add(&format!("{ty} field {f:?}"), json!({"type": ty, "field": f}));
+    }
+    add(&format!("{ty} size 0"), json!({"type": ty, "field": "kw", "size": 0}));
+    add(&format!("{ty} size huge"), json!({"type": ty, "field": "kw", "size": huge}));
+  }
+  add("terms shard_size 0 min_doc_count huge", json!({"type": "terms", "field": "kw", "shard_size": 0, "min_doc_count": huge, "missing": {"a": 1}}));
+  add("rare_terms max_doc_count 0", json!({"type": "rare_terms", "field": "g", "max_doc_count": 0}));
+  add("significant_terms bad background", json!({"type": "significant_terms", "field": "kw", "background_filter": {"KeywordEq": {"field": "nope", "value": "x"}}}));
+  // range / date_range
+  add("range valid", json!({"type": "range", "field": "f", "keyed": false, "ranges": [{"to": 1.0}, {"from": 1.0}]}));
+  add("range no ranges", json!({"type": "range", "field": "f", "keyed": true, "ranges": []}));
+  add("range inverted + unbounded", json!({"type": "range", "field": "n", "keyed": true, "ranges": [{"from": 2.0, "to": 1.0}, {}, {"from": -1e308, "to": 1e308}]}));
+  for f in ["nope", "kw", "body"] {
+    add(&format!("range field {f:?}"), json!({"type": "range", "field": f, "keyed": false, "ranges": [{"to": 1.0}]}));
+  }
+  add("date_range valid", json!({"type": "date_range", "field": "ts", "keyed": false, "ranges": [{"to": "2023-11-15T00:00:00Z"}, {"from": "2023-11-15T00:00:00Z"}]}));
+  add("date_range no ranges", json!({"type": "date_range", "field": "ts", "keyed": false, "ranges": []}));
+  add("date_range bogus date", json!({"type": "date_range", "field": "ts", "keyed": true, "ranges": [{"from": "bogus"}, {"from": "9999-12-31T23:59:59Z", "to": "0001-01-01T00:00:00Z"}]}));
+  add("date_range keyword field", json!({"type": "date_range", "field": "kw", "keyed": false, "ranges": [{"to": "2023-11-15T00:00:00Z"}]}));
+  // histogram / date_histogram
+  add("histogram valid", json!({"type": "histogram", "field": "n", "interval": 1.0}));
+  for iv in [0.0, -1.0, 1e-300, 1e308] {
+    add(&format!("histogram interval {iv:e}"), json!({"type": "histogram", "field": "n", "interval": iv}));
+    add(&format!("histogram interval {iv:e} + bounds"), json!({"type": "histogram", "field": "f", "interval": iv, "extended_bounds": {"min": 0.0, "max": 3.0}}));
+  }
+  for f in ["nope", "kw", "body"] {
+    add(&format!("histogram field {f:?}"), json!({"type": "histogram", "field": f, "interval": 1.0}));
+  }
+  add("histogram offset huge", json!({"type": "histogram", "field": "n", "interval": 1.0, "offset": 1e308, "missing": -1e308, "min_doc_count": huge}));
+  add("date_histogram fixed", json!({"type": "date_histogram", "field": "ts", "fixed_interval": "1d"}));
+  add("date_histogram calendar", json!({"type": "date_histogram", "field": "ts", "calendar_interval": "month"}));
+  add("date_histogram both", json!({"type": "date_histogram", "field": "ts", "calendar_interval": "month", "fixed_interval": "1d"}));
+  add("date_histogram neither", json!({"type": "date_histogram", "field": "ts"}));
+  for iv in ["0d", "0", "-1d", "bogus", "", "9999999999999d", "1ms"] {
+    add(&format!("date_histogram fixed {iv:?}"), json!({"type": "date_histogram", "field": "ts", "fixed_interval": iv}));
+  }
+  add("date_histogram calendar bogus", json!({"type": "date_histogram", "field": "ts", "calendar_interval": "fortnight"}));
+  add("date_histogram keyword field", json!({"type": "date_histogram", "field": "kw", "fixed_interval": "1d"}));
+  add("date_histogram f64 field + missing", json!({"type": "date_histogram", "field": "f", "fixed_interval": "1h", "missing": "bogus", "offset": "bogus"}));
+  // filter / composite
+  add("filter valid", json!({"type": "filter", "filter": {"KeywordEq": {"field": "kw", "value": "x"}}}));
+  add("filter unknown field", json!({"type": "filter", "filter": {"I64Range": {"field": "nope", "min": 0, "max": 1}}}));
+  add("filter empty And", json!({"type": "filter", "filter": {"And": []}}));
+  add("filter Not Or empty", json!({"type": "filter", "filter": {"Not": {"Or": []}}}));
+  add("composite valid", json!({"type": "composite", "size": 2, "sources": [{"type": "terms", "name": "k", "field": "kw"}]}));
+  add("composite no sources", json!({"type": "composite", "size": 2, "sources": []}));
+  add("composite size 0", json!({"type": "composite", "size": 0, "sources": [{"type": "terms", "name": "k", "field": "kw"}]}));
+  add("composite size huge", json!({"type": "composite", "size": huge, "sources": [{"type": "terms", "name": "k", "field": "kw"}, {"type": "histogram", "name": "n", "field": "n", "interval": 1.0}]}));
+  add("composite bad sources", json!({"type": "composite", "size": 2, "sources": [{"type": "terms", "name": "k", "field": "nope"}, {"type": "histogram", "name": "k", "field": "kw", "interval": 0.0}, {"type": "histogram", "name": "h", "field": "n", "interval": -1.0}]}));
+  add("composite after mismatch", json!({"type": "composite", "size": 2, "sources": [{"type": "terms", "name": "k", "field": "kw"}], "after": {"zz": [1]}}));
+  // metrics
+  for ty in ["stats", "extended_stats", "value_count"] {
+    add(&format!("{ty} valid"), json!({"type": ty, "field": "n"}));
+    for f in ["nope", "kw", "body", "c.v"] {
+      add(&format!("{ty} field {f:?}"), json!({"type": ty, "field": f}));
+    }
+    add(&format!("{ty} missing object"), json!({"type": ty, "field": "f", "missing": {"a": 1}}));
+  }
+  add("cardinality valid", json!({"type": "cardinality", "field": "kw"}));
+  add("cardinality numeric", json!({"type": "cardinality", "field": "n", "precision_threshold": 0}));
+  add("cardinality text field", json!({"type": "cardinality", "field": "body", "precision_threshold": huge}));
+  add("cardinality unknown field", json!({"type": "cardinality", "field": "nope"}));
+  add("percentiles valid", json!({"type": "percentiles", "field": "f"}));
+  add("percentiles no percents", json!({"type": "percentiles", "field": "f", "percents": []}));
+  add("percentiles out of range", json!({"type": "percentiles", "field": "n", "percents": [-1.0, 0.0, 100.0, 101.0, 1e308]}));
+  add("percentiles keyword field", json!({"type": "percentiles", "field": "kw"}));
+  add("percentile_ranks valid", json!({"type": "percentile_ranks", "field": "f", "values": [1.0]}));
+  add("percentile_ranks no values", json!({"type": "percentile_ranks", "field": "f", "values": []}));
+  add("percentile_ranks unknown field", json!({"type": "percentile_ranks", "field": "nope", "values": [1e308, -1e308]}));
+  add("top_hits valid", json!({"type": "top_hits", "size": 1}));
+  add("top_hits size 0", json!({"type": "top_hits", "size": 0}));
+  add("top_hits size huge", json!({"type": "top_hits", "size": huge, "from": huge}));
+  add("top_hits bad sort / fields", json!({"type": "top_hits", "size": 2, "from": 1, "fields": ["nope"], "sort": [{"field": "nope"}], "highlight_field": "nope"}));
+  // pipelines x bucket paths
+  let paths = ["_count", "m.avg", "m", "m.nope", "m.avg.x", "nope", "", "x", "x.value", "p1.value", "p1", "h", "h.m.avg", "h>m.avg", "..", "_key"];
+  for path in paths {
+    for ty in ["avg_bucket", "sum_bucket"] {
+      add(&format!("{ty} path {path:?}"), json!({"type": ty, "buckets_path": path}));
+    }
+    add(&format!("derivative path {path:?}"), json!({"type": "derivative", "buckets_path": path}));
+    add(&format!("moving_avg path {path:?}"), json!({"type": "moving_avg", "buckets_path": path, "window": 2}));
+    add(&format!("bucket_script var path {path:?}"), json!({"type": "bucket_script", "buckets_path": {"a": path}, "script": "a + 1"}));
+    add(&format!("bucket_sort by {path:?}"), json!({"type": "bucket_sort", "sort": [{path: "desc"}]}));
+  }
+  add("derivative unit 0", json!({"type": "derivative", "buckets_path": "m.avg", "unit": 0.0, "gap_policy": "insert_zeros"}));
+  add("derivative unit negative", json!({"type": "derivative", "buckets_path": "_count", "unit": -1.0, "gap_policy": "skip"}));
+  add("moving_avg window 0", json!({"type": "moving_avg", "buckets_path": "m.avg", "window": 0}));
+  add("moving_avg window huge", json!({"type": "moving_avg", "buckets_path": "_count", "window": huge, "predict": 0}));
+  add("moving_avg predict huge", json!({"type": "moving_avg", "buckets_path": "_count", "window": 1, "predict": huge}));
+  for (n, sc) in [("empty", ""), ("dangling operator", "a +"), ("missing var", "b"), ("division by zero", "a / 0"), ("unbalanced", "(a"), ("non-ascii", "a + é")] {
+    add(&format!("bucket_script script {n}"), json!({"type": "bucket_script", "buckets_path": {"a": "_count"}, "script": sc}));
+  }
+  add("bucket_script no vars", json!({"type": "bucket_script", "buckets_path": {}, "script": "1"}));
+  add("bucket_sort empty", json!({"type": "bucket_sort", "sort": []}));
+  add("bucket_sort from huge size 0", json!({"type": "bucket_sort", "sort": [{"_count": "asc"}], "from": huge, "size": 0}));
+  v
+}
+
+/// The bucket aggregation kinds (they accept sub-aggregations), minimal valid form.
+fn bucket_kinds() -> Vec<(&'static str, Value)> {
+  vec![
+    ("terms", json!({"type": "terms", "field": "kw"})),
+    ("histogram", json!({"type": "histogram", "field": "n", "interval": 1.0})),
+    ("filter", json!({"type": "filter", "filter": {"KeywordEq": {"field": "kw", "value": "x"}}})),
+    ("significant_terms", json!({"type": "significant_terms", "field": "kw"})),
+    ("rare_terms", json!({"type": "rare_terms", "field": "g"})),
+    ("range", json!({"type": "range", "field": "f", "keyed": false, "ranges": [{"to": 1.0}, {"from": 1.0}]})),
+    ("date_range", json!({"type": "date_range", "field": "ts", "keyed": false, "ranges": [{"from": "2023-01-01T00:00:00Z"}]})),
+    ("date_histogram", json!({"type": "date_histogram", "field": "ts", "fixed_interval": "1d"})),
+    ("composite", json!({"type": "composite", "size": 2, "sources": [{"type": "terms", "name": "k", "field": "kw"}]})),
+  ]
+}
+
+/// Every variant x every structural position. `quick` uses three representative bucket kinds as
+/// parents, thorough all nine.
+fn agg_family(quick: bool) -> Vec<Value> {
+  let m = json!({"type": "stats", "field": "n"});
+  let p1 = json!({"type": "derivative", "buckets_path": "m.avg"});
+  let with = |mut b: Value, subs: Value| {
+    b["aggs"] = subs;
+    b
+  };
+  let kinds = bucket_kinds();
+  let parents: Vec<&(&'static str, Value)> = if quick { kinds.iter().take(3).collect() } else { kinds.iter().collect() };
+  let mut out = Vec::new();
+  let wrap = |aggs: Value| json!({"query": {"type": "match_all"}, "limit": 1, "return_stored": false, "aggs": aggs});
+  for (_, x) in agg_variants() {
+    // top level, alone
+    out.push(wrap(json!({"x": x})));
+    // top level, sibling of a bucket aggregation (with a metric inside) and of a metric it may refer to
+    out.push(wrap(json!({"h": with(kinds[1].1.clone(), json!({"m": m})), "m": m, "x": x})));
+    for (_, b) in &parents {
+      // the only sub-aggregation of a bucket aggregation
+      out.push(wrap(json!({"b": with(b.clone(), json!({"x": x}))})));
+      // next to a metric and a pipeline it may refer to (pipeline referring to a pipeline)
+      out.push(wrap(json!({"b": with(b.clone(), json!({"m": m, "p1": p1, "x": x}))})));
+    }
+    // two levels deep
+    out.push(wrap(json!({"b": with(kinds[0].1.clone(), json!({"h": with(kinds[1].1.clone(), json!({"m": m, "x": x}))}))})));
+    // under a metric aggregation (the request schema has no sub-aggregations there; kept to show it)
+    out.push(wrap(json!({"m": with(m.clone(), json!({"x": x}))})));
+    // the variant itself as a parent of a metric and a pipeline
+    out.push(wrap(json!({"x": with(x.clone(), json!({"m": m, "p": {"type": "avg_bucket", "buckets_path": "m.avg"}, "d": {"type": "derivative", "buckets_path": "p.value"}}))})));
+  }
+  out
+}
+
 fn boundary_requests() -> Vec<Value> {
   let mut v = Vec::new();
   for c in boundary_chars() {
@@ -1269,6 +1427,8 @@ pub fn run(ctx: &Ctx) -> i32 {
     core.push(e.to_string());
   }
   let n_extras = core.len() - n_bases;
+  let aggfam: Vec<String> = agg_family(quick).iter().map(|r| r.to_string()).collect();
+  let n_aggfam = aggfam.len();
   let boundary: Vec<String> = boundary_requests().iter().map(|r| r.to_string()).collect();
   let n_boundary = boundary.len();
   let mut structured: Vec<String> = Vec::new();
@@ -1298,6 +1458,7 @@ pub fn run(ctx: &Ctx) -> i32 {
     out
   };
   let core = keep(core, &mut seen);
+  let aggfam = keep(aggfam, &mut seen);
   let boundary = keep(boundary, &mut seen);
   let structured = keep(structured, &mut seen);
   let edits = keep(edits, &mut seen);
@@ -1350,18 +1511,23 @@ pub fn run(ctx: &Ctx) -> i32 {
     let mut local_seen = seen.clone();
     let cur = keep(cursor_requests(w, &strings), &mut local_seen);
     cursor_counts.push(cur.len());
+    // structural aggregation family first, so that a wall cap cannot skip it (quick: the
+    // two-segment index and the empty index; thorough: all)
+    if !quick || wi >= 1 {
+      add_part(0, 150, aggfam.clone(), &mut texts);
+    }
     // the hand-written extras contain most of the hanging requests: small jobs spread them
-    add_part(0, 12, core.clone(), &mut texts);
-    add_part(0, 120, cur, &mut texts);
+    add_part(1, 12, core.clone(), &mut texts);
+    add_part(1, 120, cur, &mut texts);
     // UTF-8 boundary requests: quick on the two indexes that have segments, thorough on all
     if !quick || wi <= 1 {
-      add_part(0, 150, boundary.clone(), &mut texts);
+      add_part(1, 150, boundary.clone(), &mut texts);
     }
     if !quick || wi == 1 {
-      add_part(1, chunk, structured.clone(), &mut texts);
+      add_part(2, chunk, structured.clone(), &mut texts);
     }
     if !quick || wi == 1 {
-      add_part(2, chunk, edits.clone(), &mut texts);
+      add_part(3, chunk, edits.clone(), &mut texts);
     }
     per_world_texts.push(texts);
   }
@@ -1406,6 +1572,46 @@ pub fn run(ctx: &Ctx) -> i32 {
   let trace = std::env::var("VERIF_C16_TRACE").is_ok();
   if trace {
     eprintln!("sweep done at {:.1}s", rep.elapsed_s());
+  }
+  // A hang verdict must not depend on the contention the sweep itself creates (16 workers share
+  // caches and hyper-threads, which inflates the CPU time of a 0.7 s request past the watchdog):
+  // every request that hit the watchdog is run again with at most 4 workers active, and only a
+  // second watchdog hit counts as a hang; otherwise the outcome of the re-run is recorded.
+  let mut hang_candidates: Vec<(usize, usize)> = Vec::new();
+  for (wi, r) in results.iter().enumerate() {
+    for (ri, o) in r.lock().iter().enumerate() {
+      if matches!(o, Outcome::Hang(_)) {
+        hang_candidates.push((wi, ri));
+      }
+    }
+  }
+  let n_hang_candidates = hang_candidates.len();
+  let hang_unconfirmed = AtomicUsize::new(0);
+  {
+    let go = AtomicBool::new(false);
+    let nh = AtomicUsize::new(0);
+    std::thread::scope(|s| {
+      for _ in 0..4 {
+        s.spawn(|| loop {
+          let k = nh.fetch_add(1, Ordering::Relaxed);
+          if k >= hang_candidates.len() {
+            break;
+          }
+          let (wi, ri) = hang_candidates[k];
+          let o = run_job(&cfg, &world_json[wi], &[per_world_texts[wi][ri].as_str()], &go).pop().unwrap();
+          if !matches!(o, Outcome::Hang(_)) {
+            hang_unconfirmed.fetch_add(1, Ordering::Relaxed);
+            if trace {
+              eprintln!("watchdog hit not confirmed in isolation ({o:?}): {}", truncate(&per_world_texts[wi][ri], 300));
+            }
+            results[wi].lock()[ri] = o;
+          }
+        });
+      }
+    });
+  }
+  if trace {
+    eprintln!("hang confirmation done at {:.1}s ({} candidates, {} not confirmed)", rep.elapsed_s(), n_hang_candidates, hang_unconfirmed.load(Ordering::Relaxed));
   }
 
   // ---- judge ---------------------------------------------------------------------------------
@@ -1567,11 +1773,16 @@ pub fn run(ctx: &Ctx) -> i32 {
   let nontrivial = counts.get("ok").copied().unwrap_or(0) + counts.get("err").copied().unwrap_or(0) + counts.get("panic").copied().unwrap_or(0) + counts.get("hang").copied().unwrap_or(0) + counts.get("died").copied().unwrap_or(0);
   let cov = vcore::cov! {
     "distinct_nontrivial" => nontrivial,
-    "rule" => "requests = 10 base requests covering every top-level request feature; for every value location of each base: null, every nasty string (thorough: every string at every string location; quick: the location's own class + the universal class; classes: cursor-like, regex/wildcard patterns, scripts, field names and bucket paths, query strings, percentages/intervals/dates, enum and type names) for strings, every nasty number for numbers, bool flip, for arrays empty / first element duplicated / +40 copies / each element removed, for objects empty / each key dropped / each key renamed to 7 names; UTF-8 byte-boundary alphabet (22 characters: per encoded length 1..4 a character whose last byte is minimal / middle / maximal, letter representatives, first and last code point of each length class) as plain words at every pattern / query-string location, as wildcard / regex patterns with such a literal prefix, as indexed tokens of document E in four differently analyzed fields, and in hand-written requests for every term-expansion site (prefix / wildcard / regex on default-, whitespace-, unicode-analyzed text and keyword fields; fuzzy with prefix_length 0,1,2; query_string forms; completion suggest with and without fuzzy); hand-written extras (duplicate terms in several scoring leaves, histogram bounds, pipeline windows, highlight, limits, fuzzy, boosts, sorts on every field kind); per index a cursor alphabet built from byte-level variants of a real score cursor and JSON-level variants of two real sort cursors, each presented on the score path and on two sort paths; all single-edit neighbours (delete / duplicate / substitute by each alphabet char) of the serialized base requests. Only requests that deserialize are run, deduplicated by the parsed request. A request is non-trivial when it deserialized and was run to an outcome.",
+    "rule" => "requests = 10 base requests covering every top-level request feature; for every value location of each base: null, every nasty string (thorough: every string at every string location; quick: the location's own class + the universal class; classes: cursor-like, regex/wildcard patterns, scripts, field names and bucket paths, query strings, percentages/intervals/dates, enum and type names) for strings, every nasty number for numbers, bool flip, for arrays empty / first element duplicated / +40 copies / each element removed, for objects empty / each key dropped / each key renamed to 7 names; structural aggregation family (every aggregation type of the request schema with a minimal valid and several invalid parameterisations, pipelines x 16 bucket paths incl. dangling / self-referential / pipeline-to-pipeline, x positions: top level alone, top level next to a bucket and a metric aggregation, only child of each bucket kind, next to a metric and a pipeline inside each bucket kind, two levels deep, under a metric, and as a parent of a metric and pipelines); UTF-8 byte-boundary alphabet (22 characters: per encoded length 1..4 a character whose last byte is minimal / middle / maximal, letter representatives, first and last code point of each length class) as plain words at every pattern / query-string location, as wildcard / regex patterns with such a literal prefix, as indexed tokens of document E in four differently analyzed fields, and in hand-written requests for every term-expansion site (prefix / wildcard / regex on default-, whitespace-, unicode-analyzed text and keyword fields; fuzzy with prefix_length 0,1,2; query_string forms; completion suggest with and without fuzzy); hand-written extras (duplicate terms in several scoring leaves, histogram bounds, pipeline windows, highlight, limits, fuzzy, boosts, sorts on every field kind); per index a cursor alphabet built from byte-level variants of a real score cursor and JSON-level variants of two real sort cursors, each presented on the score path and on two sort paths; all single-edit neighbours (delete / duplicate / substitute by each alphabet char) of the serialized base requests. Only requests that deserialize are run, deduplicated by the parsed request. A request is non-trivial when it deserialized and was run to an outcome.",
     "indexes" => worlds.iter().map(|w| w.describe()).collect::<Vec<_>>(),
     "base_requests" => n_bases,
     "structured_variants_generated" => n_structured,
     "extras" => n_extras,
+    "aggregation_family_variants" => agg_variants().len(),
+    "aggregation_family_parent_kinds" => if quick { 3 } else { 9 },
+    "aggregation_family_requests_generated" => n_aggfam,
+    "aggregation_family_requests_kept" => aggfam.len(),
+    "aggregation_family_run_against" => if quick { "indexes 1 and 2 (two segments; empty)" } else { "all indexes" },
     "utf8_boundary_chars" => boundary_chars().iter().map(|c| format!("U+{:04X}", *c as u32)).collect::<Vec<_>>(),
     "utf8_boundary_requests_generated" => n_boundary,
     "utf8_boundary_requests_kept" => boundary.len(),
@@ -1587,6 +1798,8 @@ pub fn run(ctx: &Ctx) -> i32 {
     "nasty_strings" => strings.len(),
     "nasty_numbers" => numbers.len(),
     "watchdog_s" => cfg.timeout.as_secs(),
+    "watchdog_hits_in_sweep" => n_hang_candidates,
+    "watchdog_hits_not_confirmed_in_isolation" => hang_unconfirmed.load(Ordering::Relaxed),
     "outcome_counts" => counts,
     "distinct_error_messages" => err_kinds.len(),
     "failure_classes" => class_counts,
@@ -1598,7 +1811,7 @@ pub fn run(ctx: &Ctx) -> i32 {
     cov,
     vec![
       "any Ok or Err result is accepted; result contents are not judged here".into(),
-      "resource use is judged only through the outcome: a request counts as hanging when it has not returned after the watchdog (2 s quick / 10 s thorough) or when its worker's resident set passes 3 GiB on these 4-document indexes".into(),
+      "a watchdog hit during the 16-worker sweep is confirmed by re-running the request with at most 4 workers active; only a second hit counts; resource use is judged only through the outcome: a request counts as hanging when it has not returned after the watchdog (2 s quick / 10 s thorough) or when its worker's resident set passes 3 GiB on these 4-document indexes".into(),
       "vector queries are outside this check (feature build)".into(),
       "requests that do not deserialize are out of scope (C24 covers the HTTP layer)".into(),
     ],
